@@ -18,9 +18,13 @@ PROVED (each function: 1 path per case; the trace is compared by python-level id
       json.load(<the handle __enter__ returned>), model_from_dict(<what load returned>), __exit__ (the file is closed AFTER the
       document has been read and the model built); for a handle json.load(filename), model_from_dict(...) and no open / close;
       the value returned is what model_from_dict returned.
-  save_json_model: NOT under contract (its `json.dump(obj, fh, **dump_opts)` spreads a dictionary built at run time, which the
-      engine does not support; reading the source: `pretty` selects between two literal keyword tables that differ in indent /
-      separators / sort_keys only and both hold allow_nan=False, `dump_opts.update(**kwargs)` lets the caller override them).
+  save_json_model(model, filename, sort, pretty, **kwargs) [12 cases: pretty False / True x str / Path / handle x no keyword /
+      `indent`, `allow_nan` given]: one model_to_dict(model, sort=sort) call; "version" = "1" appended; for a str / Path
+      open(filename, "w"), __enter__, json.dump(d, <handle>, **opts), __exit__, for a handle json.dump(d, filename, **opts); opts is
+      EXACTLY the keyword table for the value of `pretty` - indent 4 / separators (",", ": ") / sort_keys True resp. indent 0 /
+      separators (",", ":") / sort_keys False: the two tables differ in these FORMATTING keywords only and BOTH hold allow_nan=False -
+      with the caller's keywords overriding / extending it (documented: "can be partially overwritten by the **kwargs"; a caller who
+      passes allow_nan=True gets what he asked for), and no other keyword; None is returned.
   to_yaml(model, sort, **kwargs): model_to_dict(model, sort=sort), then yaml.dump(d, **kwargs) on the module's CobraYAML instance with
       the very dictionary, extended by "version" = YAML_SPEC ("1.2"); the value returned is what dump returned.
   from_yaml(document): StringIO(document), yaml.load(<that stream>), model_from_dict(<what load returned>).
@@ -44,12 +48,20 @@ turns a writer slip (an infinite bound left as a float) into an exception instea
 clause `bound is a string exactly when not finite` of _reaction_to_dict is therefore the precondition of `to_json never raises on a
 model that has only str / finite numbers in its notes`.
 
-MUTATION TRIALS (tools/mutate_and_run.sh, every one fails): listed at the end of the module docstring of the props wiring (see
-the report) - json.py: `sort=sort` -> `sort=False` (post sat), `allow_nan=False` -> `allow_nan=True` (post sat), `obj["version"] =
-JSON_SPEC` dropped (post sat), `**kwargs` dropped from dumps (post sat), `json.loads(document)` -> `json.load(document)` (post sat),
-model_from_dict(json.load(filename)) of the handle branch -> json.load(file_handle) (unbound name: undecided/raise);
-yaml.py: `yaml.dump(obj, file_handle, **kwargs)` -> `yaml.dump(obj, filename, **kwargs)` (post sat), CobraYAML.dump `if inefficient:`
--> `if not inefficient:` (post sat), YAML_SPEC for JSON_SPEC-like slips (`obj["version"] = "1"`: post sat).
+ENGINE (additive, both turn a former `Unsupported` into a supported construct): pyvc/builtins.dict_from_pairs - a dictionary display
+with literal keys whose values are of different kinds (`{"indent": 4, "separators": (",", ": "), ...}`) is a record; pyvc/engine.e_Call -
+`f(**d)` with d such a record (literal string keys, unconditional entries) passes its entries as keywords.
+
+MUTATION TRIALS (tools/mutate_and_run.sh; every one fails with the exit post-condition `sat`):
+  json.py  to_json: `sort=sort` -> `sort=False`; `allow_nan=False` -> `allow_nan=True`; `obj["version"] = JSON_SPEC` dropped; `**kwargs`
+           dropped from dumps (case with_keywords); `json.dumps(dict(obj), ...)` (another dictionary: undecided, dict(...) unsupported)
+           from_json: `json.loads(document)` -> `json.load(document)`
+           load_json_model: `json.load(file_handle)` -> `json.load(filename)` inside the with block (cases str, Path)
+           save_json_model: pretty table `"allow_nan": True` (cases pretty:True); `dump_opts.update(**kwargs)` dropped (cases
+           with_keywords); `json.dump(obj, file_handle)` without the options; `if not pretty:`; open(filename, "a"); version dropped
+  yaml.py  save_yaml_model: `yaml.dump(obj, filename, **kwargs)` inside the with block (cases str); to_yaml: `obj["version"] = "1"`;
+           load_yaml_model: `isinstance(filename, str)` only (case Path); CobraYAML.dump: `if not inefficient:` (cases no_stream sat,
+           cases stream undecided: IO.getvalue unknown)
 """
 import z3
 from .common import *  # noqa
@@ -58,7 +70,7 @@ from pyvc.state import alloc_obj
 MJ, MY = "cobra/io/json.py", "cobra/io/yaml.py"
 for _c in ("Model", "Path", "IO", "File", "StringIO", "Document", "CobraYAML"):
     REG.classes.setdefault(_c, [])
-_MINE = ("to_json", "from_json", "load_json_model", "to_yaml", "from_yaml", "save_yaml_model", "load_yaml_model", "CobraYAML.dump")
+_MINE = ("to_json", "from_json", "load_json_model", "save_json_model", "to_yaml", "from_yaml", "save_yaml_model", "load_yaml_model", "CobraYAML.dump")
 _ABSTRACT_GLOBALS = ("model_to_dict", "model_from_dict", "json", "yaml", "open", "io", "StringIO", "YAML")
 
 
@@ -148,6 +160,12 @@ def call_method_hook(eng, st, recv, name, pos, kw):
             st, h = alloc_obj(st, "IO", {})
             return [("ok", _event(st, "__enter__", [recv], {}, h), h)]
         return [("ok", _event(st, "__exit__", [recv], {}, NONE), NONE)]       # returns None: an exception is not swallowed
+    if isinstance(recv, VObj) and recv.kind == "dict" and st.objs[recv.oid].get("pure") and name == "update" and not pos:
+        # <keyword table>.update(**kwargs): the given keywords replace / extend the entries (dict.update with keywords only)
+        items = st.objs[recv.oid]["pyitems"]
+        for k, v in kw.items():
+            items = tuple((a, v if a == k else b) for a, b in items) if k in dict(items) else items + ((k, v),)
+        return [("ok", st.updobj(recv.oid, pyitems=items), NONE)]
     if isinstance(recv, VObj) and recv.cls == "StringIO" and name == "getvalue" and not pos and not kw:
         r = _new_text("stream_value")
         return [("ok", _event(st, "getvalue", [recv], {}, r), r)]
@@ -298,6 +316,70 @@ REG.add(Contract(MJ, "load_json_model", "C11", [("filename", TStr())], _file_cas
                  modifies=_GH))
 
 
+_PRETTY = {True: {"indent": 4, "separators": (",", ": "), "sort_keys": True, "allow_nan": False},
+           False: {"indent": 0, "separators": (",", ":"), "sort_keys": False, "allow_nan": False}}
+
+
+def _lit(v):
+    if isinstance(v, VConc):
+        return v.py
+    if isinstance(v, VTuple):
+        return tuple(_lit(x) for x in v.items)
+    if isinstance(v, (VBool, VInt)) and z3.is_expr(v.t):
+        t = z3.simplify(v.t)
+        if z3.is_true(t) or z3.is_false(t):
+            return z3.is_true(t)
+        if z3.is_int_value(t):
+            return t.as_long()
+    return v
+
+
+def _save_json(E, tr):
+    """the keywords json.dump receives: the documented table for the value of `pretty` (the two tables differ in indent / separators /
+    sort_keys ONLY and both hold allow_nan=False), overridden / extended by the caller's own keywords, and nothing else"""
+    fn = E["filename"]
+    if not (len(tr) >= 2 and _call_is(tr[0], "model_to_dict", [E["model"]], {"sort": E["sort"]}) and isinstance(E.res, VNone)):
+        return False
+    pretty = _lit(E["pretty"])
+    if pretty not in (True, False):
+        return False
+    d = tr[0][4]
+
+    def dump_ok(ev, handle):
+        if not (ev[0] == "json.dump" and len(ev[1]) == 2 and _is(ev[1][0], d) and _is(ev[1][1], handle)):
+            return False
+        got, own = dict(ev[2]), _kwargs(E)
+        want = dict(_PRETTY[bool(pretty)])
+        if set(got) != set(want) | set(own):
+            return False
+        for k, v in got.items():
+            if k in own:
+                if not _is(v, own[k]):
+                    return False
+            elif _lit(v) != want[k] or type(_lit(v)) is not type(want[k]):
+                return False
+        return _dict_with_version(E, tr[0], ev, "1")
+    if isinstance(fn, (VRef, VObj)) and fn.cls == "IO":
+        return len(tr) == 2 and dump_ok(tr[1], fn)
+    return (len(tr) == 5 and _call_is(tr[1], "open", [fn, VConc("w")], {}) and _call_is(tr[2], "__enter__", [tr[1][4]], {})
+            and dump_ok(tr[3], tr[2][4]) and _call_is(tr[4], "__exit__", [tr[1][4]], {}))
+
+
+def _sj_cases():
+    out = []
+    for pv in (False, True):
+        for fk, ft in (("str", TStr), ("Path", lambda: TRef("Path")), ("handle", lambda: TRef("IO"))):
+            out += _kw_cases(_save_json, names=("indent", "allow_nan"),
+                             over=[(f"/pretty:{pv}/filename:{fk}", {"pretty": TConc(pv), "filename": ft()})])
+    return out
+
+
+_PRETTY_T = TConc(False)
+_PRETTY_T.default = VConc(False)
+REG.add(Contract(MJ, "save_json_model", "C11", [("model", TRef("Model")), ("filename", TStr()), ("sort", _SORT), ("pretty", _PRETTY_T), _KW],
+                 _sj_cases(), key="save_json_model", modifies=_GH))
+
+
 # ---------------------------------------------------------------- yaml
 def _to_yaml(E, tr):
     return (len(tr) == 2 and _call_is(tr[0], "model_to_dict", [E["model"]], {"sort": E["sort"]})
@@ -353,4 +435,4 @@ REG.add(Contract(MY, "CobraYAML.dump", "C11", [("self", TRef("CobraYAML")), ("da
                  _kw_cases(_cy_dump, names=("transform",), over=[("/no_stream", {"stream": TNone()}), ("/stream", {"stream": TRef("IO")})]),
                  key="CobraYAML.dump", modifies=_GH))
 
-KEYS = ["to_json", "from_json", "load_json_model", "to_yaml", "from_yaml", "save_yaml_model", "load_yaml_model", "CobraYAML.dump"]
+KEYS = ["to_json", "from_json", "load_json_model", "save_json_model", "to_yaml", "from_yaml", "save_yaml_model", "load_yaml_model", "CobraYAML.dump"]
